@@ -25,7 +25,7 @@ def build(d, ub):
 def run(tier, seed):
     t0 = time.time()
     d = vc.fresh_dir(PID)
-    lvl = 0 if tier == "quick" else 1
+    lvl = 1   # the deeper level costs seconds: both tiers run it (thorough = quick for this check)
     bins = [build(d, False), build(d, True)]
     reps = vc.run_parallel([(lambda b=b: vc.run_seqx(b, [lvl], timeout=3000)) for b in bins])
     tot, viol = vc.seqx_collect(PID, "rand", reps)
